@@ -24,7 +24,7 @@ class Path:
 
 class Explorer:
     """depth-first exploration of decision prefixes"""
-    def __init__(self, max_paths=4096, feas_timeout_ms=600):
+    def __init__(self, max_paths=4096, feas_timeout_ms=int(__import__('os').environ.get('PYVC_FEAS_MS', '600'))):
         self.work = []; self.path = None; self.max_paths = max_paths; self.npaths = 0
         self.feas_timeout_ms = feas_timeout_ms
         self.feas_cache = {}
@@ -41,11 +41,19 @@ def assume(c):
     if z3.is_true(c): return
     path().pc.append(c)
 
+_FORCE_UNKNOWN = bool(__import__('os').environ.get('PYVC_FEAS_FORCE_UNKNOWN'))
 def _feasible(extra):
     p = path()
     s = z3.Solver(); s.set('timeout', CUR.feas_timeout_ms)
     s.add(*p.pc); s.add(extra)
-    return s.check() != z3.unsat
+    r = s.check() if not _FORCE_UNKNOWN else z3.unknown      # PYVC_FEAS_FORCE_UNKNOWN=1: testing knob, every feasibility check 'times out'
+    if r == z3.unknown: p.uncertain = True      # taken as feasible; an exceptional outcome on such a path is re-checked before it is reported (explore)
+    return r != z3.unsat
+
+def _recheck_feasible(p, timeout_ms=30000):
+    """sat / unsat / unknown for the whole path condition, with a real budget"""
+    s = z3.Solver(); s.set('timeout', timeout_ms); s.add(*p.pc)
+    return str(s.check())
 
 def decide(c):
     """branch on the z3 boolean c; returns a Python bool"""
@@ -61,6 +69,7 @@ def decide(c):
         t, f = _feasible(c), _feasible(z3.Not(c))
         if t and f:
             CUR.work.append(p.taken + [False]); v = True
+            if getattr(p, 'uncertain', False): CUR.unc.add(tuple(p.taken + [False]))      # the queued alternative inherits the uncertainty
         elif t: v = True
         elif f: v = False
         else: raise Abort()
@@ -70,13 +79,14 @@ def decide(c):
 def explore(fn, max_paths=None):
     """run fn() once per feasible path; fn returns an outcome object (or raises).
     yields (path, outcome, exception)"""
-    CUR.work = [[]]; CUR.npaths = 0
+    CUR.work = [[]]; CUR.npaths = 0; CUR.unc = set()
     cap = max_paths or CUR.max_paths
     results = []
     while CUR.work:
         if CUR.npaths >= cap:
             raise Undecided('path cap %d reached' % cap)
         CUR.path = Path(CUR.work.pop())
+        if CUR.unc and any(tuple(CUR.path.prefix[:k]) in CUR.unc for k in range(1, len(CUR.path.prefix) + 1)): CUR.path.uncertain = True
         try:
             out = fn()
             results.append((CUR.path, out, None))
@@ -87,6 +97,11 @@ def explore(fn, max_paths=None):
         except Exception as e:       # an exception escaping the function under proof is an outcome
             import os, traceback
             if os.environ.get('PYVC_DEBUG'): traceback.print_exc()
+            if getattr(CUR.path, 'uncertain', False):
+                # some branch decision on this path was taken on a solver time-out: make sure the path exists before calling the exception an outcome
+                r = _recheck_feasible(CUR.path)
+                if r == 'unsat': continue
+                if r != 'sat': raise Undecided('feasibility of a path that ends in %s could not be decided' % type(e).__name__)
             results.append((CUR.path, None, e))
         finally:
             CUR.npaths += 1
